@@ -82,6 +82,15 @@ def ev(n, env):
     s = U(n)
     if s in env:
         return env[s]
+    if isinstance(n, ast.Call) and U(n.func) == 'zip' and n.args \
+            and not n.keywords:
+        cols = [ev(a, env) for a in n.args]
+        if all(isinstance(c, Series) for c in cols) and len(
+                {c.frame.key() for c in cols}) == 1 and not any(
+                    c.extra for c in cols):
+            # parallel walk over columns of one frame: one row at a time
+            return ('zip', cols)
+        return None
     if isinstance(n, ast.List) and n.elts:
         # a list of column labels
         return ('cols', tuple(U(e) for e in n.elts))
@@ -221,6 +230,11 @@ def walk(stmts, env, on_stmt):
             if isinstance(it, tuple) and it[0] == 'iterrows' and isinstance(
                     s.target, ast.Tuple) and len(s.target.elts) == 2:
                 env[U(s.target.elts[1])] = Row(it[1])
+            if isinstance(it, tuple) and it[0] == 'zip' and isinstance(
+                    s.target, ast.Tuple) and len(s.target.elts) == len(
+                        it[1]):
+                for t_, c_ in zip(s.target.elts, it[1]):
+                    env[U(t_)] = Cell(c_.frame, c_.col)
             on_stmt(s, env, None)
             walk(s.body, env, on_stmt)
             continue
